@@ -1,135 +1,363 @@
-"""Gen/RegTables.lean: register alias tables of the two parsers (C12, C03)."""
+"""Gen/RegTables.lean: register alias tables of the two parsers (C12, C03).
+
+The tables are read by MEANING (helpers in astutil_G3.py), not by spelling:
+
+* every table / pattern / slice bound may be a literal, a constant expression, a local bound once
+  (any name), a class attribute (`self.X`, `ParserX86ATT.X`) or a module constant;
+* a collection whose order cannot influence the result is emitted in ONE canonical order whatever
+  the order in the source: the x86 alias groups and their members (used only as `a in g and b in g`
+  for some group g), the vector names (right side of `in`), the prefixes of `is_basic_gpr` (inside
+  `any(...)` / `str.startswith(tuple)`), the AArch64 prefix classes (an any-of test).  If the use of
+  the alias groups is NOT of that order-free form (a group is indexed, the loop variable is used for
+  anything but `in`), the source order is kept, so a reordering shows in the output;
+  the canonical order is "the pinned order first, unknown entries after it, sorted" (`canon_order`);
+* the regex of the numbered GPRs is parsed (`re._parser`): `[DWB]` = `[BDW]`, raw or plain string,
+  given directly / through a local / through a compiled pattern; what is required is
+  <one letter> ( <ASCII digits>+ ) <optional one of a letter class>, used with `re.match`, no flags;
+* the name comparisons are found through hoisted locals (`tail_a = reg_a_name[1:]`) and in `==` / `!=`
+  form, in an `if`, a guard clause or a returned expression.
+
+Still required (a TranslateError otherwise, the check then searches): the functions exist under
+their names in their classes; exactly one alias-group table, one regex shape, one slice bound;
+the AArch64 classes are strings tested with `in`; both name operands are folded the same way.
+No code of the analysed tree is executed here.
+"""
 import ast
+import os
+import sys
 
-import translate as T
-from translate import TranslateError, generator, parse, find_func, const_str, str_list, txt, txt_list, HEADER
 
 
-@generator("RegTables", ["osaca/parser/parser_x86att.py", "osaca/parser/parser_AArch64.py"])
-def gen_regtables():
-    import re as _re
+def _load_helpers():
+    """astutil_G3.py from this directory, without putting the directory on sys.path"""
+    import importlib.util
 
-    tx = parse("osaca/parser/parser_x86att.py")
-    fn = find_func(tx, "is_reg_dependend_of", "ParserX86ATT")
-    # the dict literal of string lists inside is_reg_dependend_of (located by shape, not by name)
-    groups = None
-    for node in ast.walk(fn):
-        if isinstance(node, ast.Dict) and node.values and all(
-            isinstance(v, (ast.List, ast.Tuple)) for v in node.values
-        ):
-            groups = [str_list(v) for v in node.values]
-    if groups is None:
-        raise TranslateError("x86 is_reg_dependend_of: no dict literal of register-name lists")
-    # regexes used with re.match inside the function: all must be <L>([0-9]+)[...]?
-    heads = set()
-    for node in ast.walk(fn):
-        if (
-            isinstance(node, ast.Call)
-            and isinstance(node.func, ast.Attribute)
-            and node.func.attr == "match"
-            and node.args
-        ):
-            pat = const_str(node.args[0])
-            m = _re.fullmatch(r"([A-Z])\(\[0-9\]\+\)\[([A-Z]+)\]\?", pat)
-            if not m:
-                raise TranslateError("x86 is_reg_dependend_of: unexpected regex %r" % pat)
-            heads.add((m.group(1), m.group(2)))
-    if len(heads) != 1:
-        raise TranslateError("x86 is_reg_dependend_of: expected one regex shape, got %r" % heads)
-    (head, suffixes), = heads
-    # shape of the equality / slice comparison: reg_a_name[1:] == reg_b_name[1:]
-    slices = [
-        n for n in ast.walk(fn) if isinstance(n, ast.Subscript) and isinstance(n.slice, ast.Slice)
-    ]
+    if "astutil_G3" not in sys.modules:
+        path = os.path.join(os.path.dirname(os.path.abspath(__file__)), "astutil_G3.py")
+        spec = importlib.util.spec_from_file_location("astutil_G3", path)
+        mod = importlib.util.module_from_spec(spec)
+        sys.modules["astutil_G3"] = mod
+        try:
+            spec.loader.exec_module(mod)
+        except BaseException:
+            del sys.modules["astutil_G3"]
+            raise
+    return sys.modules["astutil_G3"]
+
+
+A = _load_helpers()
+from translate import TranslateError, generator, parse, txt_list, HEADER  # noqa: E402
+
+X86 = "osaca/parser/parser_x86att.py"
+A64 = "osaca/parser/parser_AArch64.py"
+
+# the pinned order of the order-free collections (see module doc string)
+PREF_GPR = ["RAX", "EAX", "AX", "AH", "AL", "RBX", "EBX", "BX", "BH", "BL", "RCX", "ECX", "CX", "CH", "CL",
+            "RDX", "EDX", "DX", "DH", "DL", "RSP", "ESP", "SP", "SPL", "RBP", "EBP", "BP", "BPL",
+            "RSI", "ESI", "SI", "SIL", "RDI", "EDI", "DI", "DIL"]
+PREF_SUFFIX = ["D", "W", "B"]
+PREF_A64 = ["wx", "bhsdqvz", "p"]
+
+
+def _is_strs(v, kinds=(list, tuple, set, frozenset)):
+    return isinstance(v, kinds) and len(v) > 0 and all(isinstance(x, str) for x in v)
+
+
+def _parents(fn):
+    par = {}
+    for n in ast.walk(fn):
+        for c in ast.iter_child_nodes(n):
+            par[id(c)] = n
+    return par
+
+
+def _const(node, sc):
+    try:
+        return A.const_eval(node, sc)
+    except A.NotConst:
+        return None
+
+
+def _equality(fn, n, par):
+    """is the comparison n an equality test?  `a == b`, or `a != b` as the test of a guard clause
+    `if a != b: return False`.  Any other use of `!=` is not the code the model describes."""
+    if isinstance(n.ops[0], ast.Eq):
+        return True
+    p = par.get(id(n))
+    if (isinstance(p, ast.If) and p.test is n and len(p.body) == 1 and isinstance(p.body[0], ast.Return)
+            and isinstance(p.body[0].value, ast.Constant) and p.body[0].value.value is False):
+        return True
+    raise TranslateError("%s: names compared with `!=` outside a guard clause `if a != b: return False`" % fn.name)
+
+
+# --------------------------------------------------------------------------- x86 alias groups
+def _group_table(v):
+    """list of groups (each a list, or a set) if v is a table of register-name groups"""
+    if isinstance(v, dict):
+        v = list(v.values())
+    if isinstance(v, (list, tuple)) and len(v) > 0 and all(_is_strs(g) for g in v):
+        return [g if isinstance(g, (set, frozenset)) else list(g) for g in v]
+    return None
+
+
+def x86_groups(fn, sc):
+    par = _parents(fn)
+    found = []  # (groups, node) of every maximal expression of the function that is such a table
+    for n in A.walk_in_order(fn):
+        if not isinstance(n, ast.expr) or isinstance(getattr(n, "ctx", None), ast.Store):
+            continue
+        g = _group_table(_const(n, sc))
+        if g is None:
+            continue
+        p = par.get(id(n))
+        # X.values() / list(X.values()): the table is the whole call
+        if isinstance(p, ast.Attribute) and p.attr in ("values", "items", "keys"):
+            continue
+        found.append((g, n))
+    # keep maximal nodes only
+    ids = {id(n) for _, n in found}
+
+    def inside(n):
+        p = par.get(id(n))
+        while p is not None:
+            if id(p) in ids:
+                return True
+            p = par.get(id(p))
+        return False
+
+    found = [(g, n) for g, n in found if not inside(n)]
+    distinct = []
+    for g, _ in found:
+        key = sorted(tuple(sorted(x)) for x in g)
+        if key not in [k for k, _ in distinct]:
+            distinct.append((key, g))
+    if len(distinct) != 1:
+        raise TranslateError("x86 is_reg_dependend_of: expected one table of register-name groups, found %d" % len(distinct))
+    groups = distinct[0][1]
+
+    # is the table used in the order-free form only?  every use must be the iterable of a loop /
+    # comprehension whose variable is used only on the right of `in` / `not in`
+    order_free = True
+    uses = [n for _, n in found if not isinstance(n, (ast.Dict, ast.List, ast.Tuple))
+            or not isinstance(par.get(id(n)), (ast.Assign, ast.AnnAssign))]
+    if not uses:
+        order_free = False
+    for n in uses:
+        p = par.get(id(n))
+        while isinstance(p, ast.Call) and isinstance(p.func, ast.Name) and p.func.id in ("list", "tuple", "sorted") \
+                and len(p.args) == 1:
+            n, p = p, par.get(id(p))
+        if isinstance(p, (ast.For, ast.comprehension)) and p.iter is n and isinstance(p.target, ast.Name):
+            var = p.target.id
+            owner = p if isinstance(p, ast.For) else par.get(id(p))
+            for m in ast.walk(owner):
+                if isinstance(m, ast.Name) and m.id == var and isinstance(m.ctx, ast.Load):
+                    q = par.get(id(m))
+                    if not (isinstance(q, ast.Compare) and len(q.ops) == 1 and isinstance(q.ops[0], (ast.In, ast.NotIn))
+                            and q.comparators[0] is m):
+                        order_free = False
+        else:
+            order_free = False
+    if order_free:
+        gs = [A.canon_order(g, PREF_GPR) for g in groups]
+        pref = {p: i for i, p in enumerate(PREF_GPR)}
+        gs.sort(key=lambda g: (min(pref.get(x, len(pref)) for x in g), g))
+        return gs
+    # order may matter: source order (a set has none: canonical)
+    return [A.canon_order(g, PREF_GPR) if isinstance(g, (set, frozenset)) else list(g) for g in groups]
+
+
+# --------------------------------------------------------------------------- x86 regex
+def x86_regex(fn, sc):
+    uses = A.regex_uses(fn, sc)
+    if not uses:
+        raise TranslateError("x86 is_reg_dependend_of: no regex use found")
+    shapes = set()
+    digits = frozenset(range(48, 58))
+    for method, pat, flags, call in uses:
+        if method != "match":
+            raise TranslateError("x86 is_reg_dependend_of: regex used with re.%s, expected re.match" % method)
+        if flags is not None and _const(flags, sc) != 0:
+            raise TranslateError("x86 is_reg_dependend_of: regex used with flags")
+        t = A.regex_tree(pat)
+        ok = (
+            len(t) == 3
+            and t[0][0] == "IN" and not t[0][1] and len(t[0][2]) == 1
+            and t[1][0] == "SUBPATTERN" and t[1][1][0] == 1 and t[1][1][1] == 0 and t[1][1][2] == 0
+            and len(t[1][1][3]) == 1 and t[1][1][3][0][0] == "MAX_REPEAT"
+            and t[1][1][3][0][1][0] == 1 and str(t[1][1][3][0][1][1]) == "MAXREPEAT"
+            and t[1][1][3][0][1][2] == (("IN", False, digits),)
+            and t[2][0] == "MAX_REPEAT" and t[2][1][0] == 0 and t[2][1][1] == 1
+            and len(t[2][1][2]) == 1 and t[2][1][2][0][0] == "IN" and not t[2][1][2][0][1]
+        )
+        if not ok:
+            raise TranslateError("x86 is_reg_dependend_of: unexpected regex %r" % pat)
+        (head,) = t[0][2]
+        suf = t[2][1][2][0][2]
+        if not all(isinstance(c, int) and chr(c).isascii() and chr(c).isupper() for c in list(suf) + [head]):
+            raise TranslateError("x86 is_reg_dependend_of: unexpected regex %r" % pat)
+        shapes.add((chr(head), "".join(A.canon_order([chr(c) for c in suf], PREF_SUFFIX))))
+    if len(shapes) != 1:
+        raise TranslateError("x86 is_reg_dependend_of: expected one regex shape, got %r" % sorted(shapes))
+    return shapes.pop()
+
+
+# --------------------------------------------------------------------------- x86 vector slice
+def x86_drop(fn, sc):
+    """k of `reg_a_name[k:] == reg_b_name[k:]`: every slice of the function is `[k:]` with one k, and two
+    of them (possibly through locals) are compared with == / !="""
+    slices = [n for n in ast.walk(fn) if isinstance(n, ast.Subscript) and isinstance(n.slice, ast.Slice)]
     if len(slices) != 2:
         raise TranslateError("x86 is_reg_dependend_of: expected two name slices")
     drops = set()
     for s in slices:
         sl = s.slice
-        if sl.upper is not None or sl.step is not None or not isinstance(sl.lower, ast.Constant):
+        if sl.upper is not None or (sl.step is not None and _const(sl.step, sc) != 1) or sl.lower is None:
             raise TranslateError("x86 is_reg_dependend_of: unexpected slice shape")
-        drops.add(sl.lower.value)
+        k = A.const_or_fail(sl.lower, sc, "x86 is_reg_dependend_of: slice bound", int)
+        if isinstance(k, bool) or k < 0:
+            raise TranslateError("x86 is_reg_dependend_of: unexpected slice bound %r" % (k,))
+        drops.add(k)
     if len(drops) != 1:
         raise TranslateError("x86 is_reg_dependend_of: slices differ")
-    (drop,) = drops
-    # vector names: list literal inside is_vector_register
-    fv = find_func(tx, "is_vector_register", "ParserX86ATT")
-    vec = None
-    for node in ast.walk(fv):
-        if isinstance(node, ast.List) and node.elts and all(
-            isinstance(e, ast.Constant) and isinstance(e.value, str) for e in node.elts
-        ):
-            vec = str_list(node)
-    if vec is None:
-        raise TranslateError("is_vector_register: no list literal of names")
-    fb = find_func(tx, "is_basic_gpr", "ParserX86ATT")
-    excl = None
-    for node in ast.walk(fb):
-        if isinstance(node, ast.List) and node.elts and all(
-            isinstance(e, ast.Constant) and isinstance(e.value, str) for e in node.elts
-        ):
-            excl = str_list(node)
-    if excl is None:
-        raise TranslateError("is_basic_gpr: no list literal of prefixes")
+    compared = False
+    par = _parents(fn)
+    for n in ast.walk(fn):
+        if isinstance(n, ast.Compare) and len(n.ops) == 1 and isinstance(n.ops[0], (ast.Eq, ast.NotEq)):
+            l, _ = sc.deref(n.left)
+            r, _ = sc.deref(n.comparators[0])
+            if l in slices and r in slices and l is not r and _equality(fn, n, par):
+                compared = True
+    if not compared:
+        raise TranslateError("x86 is_reg_dependend_of: the two name slices are not compared with each other")
+    return drops.pop()
 
-    ta = parse("osaca/parser/parser_AArch64.py")
-    fa = find_func(ta, "is_reg_dependend_of", "ParserAArch64")
-    # prefix classes: every string constant assigned to a local name that is later used on the
-    # right of `in`; order of assignment is kept.
+
+# --------------------------------------------------------------------------- string collections
+def str_collections(fn, sc, what):
+    """the distinct constant collections of strings a function tests against: right side of `in`,
+    iterable of a loop / comprehension, argument of .startswith / .endswith; (values, order_free)"""
+    par = _parents(fn)
+    hits = []
+    for n in A.walk_in_order(fn):
+        cand = []
+        if isinstance(n, ast.Compare) and len(n.ops) == 1 and isinstance(n.ops[0], (ast.In, ast.NotIn)):
+            cand.append((n.comparators[0], True))
+        elif isinstance(n, ast.comprehension):
+            owner = par.get(id(n))
+            call = par.get(id(owner))
+            free = (isinstance(call, ast.Call) and isinstance(call.func, ast.Name) and call.func.id in ("any", "all")
+                    and isinstance(owner, (ast.GeneratorExp, ast.ListComp, ast.SetComp)))
+            cand.append((n.iter, free))
+        elif isinstance(n, ast.For):
+            # `for x in names: if <test on x>: return <constant>` is an any-of test as well
+            b = n.body
+            free = (not n.orelse and len(b) == 1 and isinstance(b[0], ast.If) and not b[0].orelse
+                    and len(b[0].body) == 1 and isinstance(b[0].body[0], ast.Return)
+                    and isinstance(b[0].body[0].value, ast.Constant))
+            cand.append((n.iter, free))
+        elif (isinstance(n, ast.Call) and isinstance(n.func, ast.Attribute) and n.func.attr in ("startswith", "endswith")
+              and len(n.args) == 1):
+            cand.append((n.args[0], True))
+        for node, free in cand:
+            v = _const(node, sc)
+            if _is_strs(v):
+                hits.append((v, free or isinstance(v, (set, frozenset))))
+    distinct = []
+    for v, free in hits:
+        key = sorted(v) if free else list(v)
+        if key not in [k for k, _, _ in distinct]:
+            distinct.append((key, v, free))
+    if len(distinct) != 1:
+        raise TranslateError("%s: expected one constant collection of names, found %d" % (what, len(distinct)))
+    _, v, free = distinct[0]
+    if len(set(v)) != len(v):
+        raise TranslateError("%s: duplicate names" % what)
+    return sorted(v) if free else list(v)
+
+
+# --------------------------------------------------------------------------- AArch64
+def a64_classes(fn, sc):
     classes = []
-    for node in fa.body:
-        if (
-            isinstance(node, ast.Assign)
-            and len(node.targets) == 1
-            and isinstance(node.targets[0], ast.Name)
-            and isinstance(node.value, ast.Constant)
-            and isinstance(node.value.value, str)
-        ):
-            classes.append((node.targets[0].id, node.value.value))
+    for n in A.walk_in_order(fn):
+        if not (isinstance(n, ast.Compare) and len(n.ops) == 1 and isinstance(n.ops[0], ast.In)):
+            continue
+        c = n.comparators[0]
+        v = _const(c, sc)
+        if isinstance(v, str):
+            vals = [v]
+        elif isinstance(c, ast.Name):
+            # the variable of a loop / comprehension over a constant collection of class strings
+            vals = None
+            for m in ast.walk(fn):
+                if isinstance(m, (ast.For, ast.comprehension)) and isinstance(m.target, ast.Name) and m.target.id == c.id:
+                    it = _const(m.iter, sc)
+                    if _is_strs(it):
+                        vals = list(it) if not isinstance(it, (set, frozenset)) else sorted(it)
+            if vals is None:
+                continue
+        else:
+            continue
+        for x in vals:
+            if x not in classes:
+                classes.append(x)
     if not classes:
         raise TranslateError("AArch64 is_reg_dependend_of: no prefix class strings")
-    used = set()
-    for node in ast.walk(fa):
-        if isinstance(node, ast.Compare) and any(isinstance(o, ast.In) for o in node.ops):
-            for c in node.comparators:
-                if isinstance(c, ast.Name):
-                    used.add(c.id)
-    classes = [(n, v) for (n, v) in classes if n in used]
-    # is the name comparison case-folded?  (reg_a.name == reg_b.name  vs  .lower()/.upper())
-    fold = None
-    for node in ast.walk(fa):
-        if isinstance(node, ast.If) and isinstance(node.test, ast.Compare):
-            t = node.test
-            if len(t.ops) == 1 and isinstance(t.ops[0], ast.Eq):
-                l, r = t.left, t.comparators[0]
+    return A.canon_order(classes, PREF_A64)
 
-                def kind(e):
-                    if isinstance(e, ast.Attribute) and e.attr == "name":
-                        return "plain"
-                    if (
-                        isinstance(e, ast.Call)
-                        and isinstance(e.func, ast.Attribute)
-                        and e.func.attr in ("lower", "upper")
-                        and isinstance(e.func.value, ast.Attribute)
-                        and e.func.value.attr == "name"
-                    ):
-                        return "fold"
-                    return None
 
-                kl, kr = kind(l), kind(r)
-                if kl and kl == kr:
-                    fold = kl == "fold"
-    if fold is None:
+def a64_fold(fn, sc):
+    def kind(e):
+        e, _ = sc.deref(e)
+        if isinstance(e, ast.Attribute) and e.attr == "name":
+            return "plain"
+        if (isinstance(e, ast.Call) and isinstance(e.func, ast.Attribute) and e.func.attr in ("lower", "upper")
+                and not e.args and not e.keywords):
+            v, _ = sc.deref(e.func.value)
+            if isinstance(v, ast.Attribute) and v.attr == "name":
+                return "fold:" + e.func.attr
+        return None
+
+    kinds = set()
+    par = _parents(fn)
+    for n in ast.walk(fn):
+        if isinstance(n, ast.Compare) and len(n.ops) == 1 and isinstance(n.ops[0], (ast.Eq, ast.NotEq)):
+            kl, kr = kind(n.left), kind(n.comparators[0])
+            if kl and kr and _equality(fn, n, par):
+                if kl != kr:
+                    raise TranslateError("AArch64 is_reg_dependend_of: the two names are folded differently")
+                kinds.add(kl.split(":")[0])
+    if len(kinds) != 1:
         raise TranslateError("AArch64 is_reg_dependend_of: name comparison not found")
+    return kinds.pop() == "fold"
+
+
+@generator("RegTables", [X86, A64])
+def gen_regtables():
+    tx = parse(X86)
+    cx = A.find_class(tx, "ParserX86ATT")
+    base = A.Scope(tx)
+    fn = A.find_method(cx, "is_reg_dependend_of")
+    sc = base.at(cls=cx, fn=fn)
+    groups = x86_groups(fn, sc)
+    head, suffixes = x86_regex(fn, sc)
+    drop = x86_drop(fn, sc)
+    fv = A.find_method(cx, "is_vector_register")
+    vec = str_collections(fv, base.at(cls=cx, fn=fv), "is_vector_register")
+    fb = A.find_method(cx, "is_basic_gpr")
+    excl = str_collections(fb, base.at(cls=cx, fn=fb), "is_basic_gpr")
+
+    ta = parse(A64)
+    ca = A.find_class(ta, "ParserAArch64")
+    fa = A.find_method(ca, "is_reg_dependend_of")
+    sa = A.Scope(ta, ca, fa)
+    classes = a64_classes(fa, sa)
+    fold = a64_fold(fa, sa)
 
     out = [HEADER, "namespace OsacaVerif.Gen\n"]
     out.append("/-- x86 `gpr_groups` of `is_reg_dependend_of` (dict values, in order). -/")
     out.append("def gprGroups : List (List (List Nat)) := [")
-    out.append(",\n".join("  " + txt_list(g) + "  -- " + " ".join(g) for g in groups[:-1]))
-    if len(groups) > 1:
-        out[-1] = ",\n".join("  " + txt_list(g) for g in groups)
-    else:
-        out[-1] = "  " + txt_list(groups[0])
+    out.append(",\n".join("  " + txt_list(g) for g in groups))
     out.append("]\n")
     out.append("/-- names accepted by `is_vector_register` after `rstrip(digits).lower()` -/")
     out.append("def vectorNames : List (List Nat) := %s\n" % txt_list(vec))
@@ -140,10 +368,8 @@ def gen_regtables():
     out.append("/-- `reg_a_name[k:] == reg_b_name[k:]` for vector registers -/")
     out.append("def vectorNameDrop : Nat := %d\n" % drop)
     out.append("/-- AArch64 prefix classes (`prefixes_gpr`, `prefixes_vec`, ...) in source order -/")
-    out.append("def a64PrefixClasses : List (List Nat) := %s\n" % txt_list([v for _, v in classes]))
+    out.append("def a64PrefixClasses : List (List Nat) := %s\n" % txt_list(classes))
     out.append("/-- whether the AArch64 register-name comparison is case-folded -/")
     out.append("def a64NameFold : Bool := %s\n" % ("true" if fold else "false"))
     out.append("end OsacaVerif.Gen\n")
     return "\n".join(out)
-
-
